@@ -14,6 +14,7 @@ pub mod prop_c08_scan;
 pub mod prop_c10;
 pub mod prop_c11;
 pub mod prop_c12;
+pub mod prop_c19;
 
 use framework::PropertyDef;
 
@@ -27,6 +28,7 @@ pub fn registry() -> Vec<PropertyDef> {
         prop_c10::def(),
         prop_c11::def(),
         prop_c12::def(),
+        prop_c19::def(),
     ]
 }
 
